@@ -44,6 +44,8 @@ class Prop(common.PropertyCheck):
         # events without a finite value (floating-point samples): the channel's curve is applied to them like to any other event
         for i in range(self.budget(12, 80)):
             yield {'k': 'nonfinite', 'seed': rng.randrange(1 << 30), 'cont': ['array', 'sample'][i % 2], 'req': ['all', 'one', 'both'][i % 3]}
+        for i, order in enumerate([['FL1', 'FL2', 'FL3'], ['FL3', 'FL1'], ['FL2', 'FL3', 'FL1'], ['FL2']]):
+            yield {'k': 'partial', 'seed': 50 + i, 'layout': ['same', 'swapped', 'reversed', 'dropped'][i], 'order': order, 'custom_fit': True}
         layouts = ['same', 'swapped', 'dropped', 'reversed', 'lacking']
         for i in range(self.budget(20, 150)):
             yield {'k': 'partial', 'seed': rng.randrange(1 << 30), 'layout': layouts[(i // len(orders) + i) % len(layouts)], 'order': orders[i % len(orders)]}
@@ -257,10 +259,18 @@ class Prop(common.PropertyCheck):
                     if not np.array_equal(got, np.asarray(ref(x))):
                         out['problems'].append('channel %s not converted with the curve of its own calibration (values of %s unknown)' % (c, unknown))
             return out
+        fitkw = {}
+        if case.get('custom_fit'):
+            # a fitting function supplied by the caller (documented signature): a straight line through the origin in linear space
+            def line_fit(fl_rfi, fl_mef):
+                k = float(np.sum(np.asarray(fl_rfi, dtype=float) * np.asarray(fl_mef, dtype=float)) / np.sum(np.asarray(fl_rfi, dtype=float) ** 2))
+                crv = lambda x: k * np.asarray(x, dtype=float)
+                return crv, crv, np.array([k]), 'mef = k*rfi', ['k']
+            fitkw = {'fitting_fxn': line_fit}
         try:
             np.random.seed(1)
             res = FlowCal.mef.get_transform_fxn(beads, mef_values, mef_channels, clustering_fxn=labels_of, clustering_channels=['FL1'],
-                                                selection_fxn=None, full_output=True)
+                                                selection_fxn=None, full_output=True, **fitkw)
         except Exception as e:
             return {'err': 'get_transform_fxn:' + type(e).__name__ + ':' + str(e)[:80]}
         tf, curves = res.transform_fxn, res.fitting['std_crv']
@@ -270,7 +280,7 @@ class Prop(common.PropertyCheck):
             for c, row in zip(mef_channels, mef_values):
                 np.random.seed(1)
                 own[c] = FlowCal.mef.get_transform_fxn(beads, [list(row)], [c], clustering_fxn=labels_of, clustering_channels=['FL1'],
-                                                       selection_fxn=None, full_output=True).fitting['std_crv'][0]
+                                                       selection_fxn=None, full_output=True, **fitkw).fitting['std_crv'][0]
         except Exception as e:
             return {'err': 'get_transform_fxn (one channel):' + type(e).__name__ + ':' + str(e)[:80]}
         # the caller goes on using (and changing) its own list of channels and table of values: the calibration must not follow
